@@ -228,11 +228,17 @@ def model_remove(rows, name):
     return rows
 
 
-def model_add(rows, name, coefs, limit):
+def model_add(rows, name, coefs, limit, real_last=None):
+    """`real_last`: the name the library gave to the row it appended. Where the CALLER chose a fresh name, that name is
+    demanded; where the library had to invent one (unnamed constraint, or the chosen name was taken), whatever string it
+    invented is taken over - the property fixes the alignment of rows, limits and names, not the naming scheme"""
+    invented = name is None or name in [r[0] for r in rows]
     if name is None:
         name = "_const_%d" % len(rows)
     if name in [r[0] for r in rows]:
         name += "_v2"
+    if invented and isinstance(real_last, str):
+        name = real_last
     rows.append((name, coefs, limit))
 
 
@@ -270,8 +276,9 @@ def step(st: State, op, viol):
                         return s
                 if too_deep(s.rows, name):
                     return None
+                n_before = len(net.constraint_index)
                 net.add_constraint(cur, limit, name)
-                model_add(s.rows, name, coefs, limit)
+                model_add(s.rows, name, coefs, limit, net.constraint_index[-1] if len(net.constraint_index) == n_before + 1 else None)
                 s.ever = True
                 tag = shape(e)
             elif kind == "rem":
@@ -317,9 +324,10 @@ def step(st: State, op, viol):
                         return s
                 if too_deep(model_remove(s.rows, n), new if new is not None else n):
                     return None
+                n_before = len(net.constraint_index)
                 net.update_constraint(n, cur, limit, new)
                 s.rows = model_remove(s.rows, n)
-                model_add(s.rows, new if new is not None else n, coefs, limit)
+                model_add(s.rows, new if new is not None else n, coefs, limit, net.constraint_index[-1] if len(net.constraint_index) == n_before else None)
                 tag = "upd:" + shape(e)
             elif kind == "json":
                 # the network is dumped and re-loaded; the restored object carries on (only used in root histories)
